@@ -1,45 +1,75 @@
 #!/usr/bin/env python3
 """Re-run the checks against the stored seeded changes (regression of the DETECTION side).
 
-usage: tools/seed_rerun.py [<PROP>-<k> ...]      (default: all of /verif/seeded)
-For each seed: git -C /repo apply patch.diff, run ./check <PROP> (quick, no evidence written), git -C /repo checkout -- .
-straight afterwards.  Exit 0 when every seed is reported (exit code 1 + VIOLATION line), 1 otherwise.  /repo must be clean."""
-import json
+usage: tools/seed_rerun.py [--in-repo] [--jobs N] [<PROP>-<k> ...]      (default: all of /verif/seeded)
+default mode: for each seed a scratch copy of /repo's working tree is made under /tmp, the patch applied there, and
+./check <PROP> run with PYTHONPATH pointing at the copy (the checks import cyecca from there; /repo is not touched);
+the copy is removed afterwards.  --in-repo: git -C /repo apply, run, git -C /repo checkout -- . straight afterwards
+(/repo must be clean; sequential).  Exit 0 when every seed is reported (exit code 1 + VIOLATION line)."""
+import concurrent.futures
 import os
+import shutil
 import subprocess
 import sys
+import tempfile
 
 ROOT = os.path.dirname(os.path.dirname(os.path.abspath(__file__)))
 
 
-def sh(cmd, cwd=None):
-    r = subprocess.run(cmd, shell=True, cwd=cwd, capture_output=True, text=True)
+def sh(cmd, cwd=None, env=None):
+    r = subprocess.run(cmd, shell=True, cwd=cwd, capture_output=True, text=True, env=env)
     return r.returncode, r.stdout + r.stderr
 
 
-def main():
-    ids = sys.argv[1:] or sorted(d for d in os.listdir(os.path.join(ROOT, "seeded")) if os.path.isdir(os.path.join(ROOT, "seeded", d)))
-    rc, out = sh("git -C /repo status --porcelain")
-    assert out.strip() == "", "/repo is not clean:\n" + out
-    missed = []
-    for sid in ids:
-        prop = sid.split("-")[0]
-        patch = os.path.join(ROOT, "seeded", sid, "patch.diff")
+def one(sid, in_repo):
+    prop = sid.split("-")[0]
+    patch = os.path.join(ROOT, "seeded", sid, "patch.diff")
+    if in_repo:
         rc, out = sh(f"git -C /repo apply {patch}")
         if rc != 0:
-            print(f"{sid}: patch does not apply: {out[:200]}")
-            missed.append(sid)
-            continue
+            return sid, False, f"patch does not apply: {out[:200]}"
         try:
             rc, out = sh(f"./check {prop} --no-evidence", cwd=ROOT)
         finally:
             sh("git -C /repo checkout -- .")
-        vio = [l for l in out.splitlines() if l.startswith("VIOLATION")]
-        summ = [l for l in out.splitlines() if l.startswith(prop + " [")]
-        ok = rc == 1 and vio
-        print(f"{sid}: rc={rc} violations={len(vio)} {'DETECTED' if ok else 'MISSED'}  {summ[-1] if summ else out[-300:]}", flush=True)
-        if not ok:
-            missed.append(sid)
+    else:
+        d = tempfile.mkdtemp(prefix=f"seedrun_{sid}_", dir="/tmp")
+        try:
+            sh(f"rsync -a --exclude .git --exclude __pycache__ /repo/ {d}/")
+            rc, out = sh(f"git apply --unsafe-paths --directory={d} {patch}", cwd="/")
+            if rc != 0:
+                rc, out = sh(f"patch -p1 < {patch}", cwd=d)
+                if rc != 0:
+                    return sid, False, f"patch does not apply: {out[:200]}"
+            env = dict(os.environ, PYTHONPATH=d, VERIF_REPLAY_DIR=os.path.join(d, "_replays"))
+            rc, out = sh(f"./check {prop} --no-evidence", cwd=ROOT, env=env)
+            used = [l for l in out.splitlines() if "cyecca imported from" in l]
+        finally:
+            shutil.rmtree(d, ignore_errors=True)
+    vio = [l for l in out.splitlines() if l.startswith("VIOLATION")]
+    summ = [l for l in out.splitlines() if l.startswith(prop + " [")]
+    ok = rc == 1 and bool(vio)
+    return sid, ok, f"rc={rc} violations={len(vio)} {'DETECTED' if ok else 'MISSED'}  {summ[-1] if summ else out[-300:]}"
+
+
+def main():
+    args = sys.argv[1:]
+    in_repo = "--in-repo" in args
+    jobs = 1
+    if "--jobs" in args:
+        jobs = int(args[args.index("--jobs") + 1])
+        del args[args.index("--jobs"):args.index("--jobs") + 2]
+    ids = [a for a in args if not a.startswith("--")] or sorted(d for d in os.listdir(os.path.join(ROOT, "seeded")) if os.path.isdir(os.path.join(ROOT, "seeded", d)))
+    if in_repo:
+        rc, out = sh("git -C /repo status --porcelain")
+        assert out.strip() == "", "/repo is not clean:\n" + out
+        jobs = 1
+    missed = []
+    with concurrent.futures.ThreadPoolExecutor(jobs) as ex:
+        for sid, ok, msg in ex.map(lambda s: one(s, in_repo), ids):
+            print(f"{sid}: {msg}", flush=True)
+            if not ok:
+                missed.append(sid)
     print("missed:", missed)
     return 1 if missed else 0
 
